@@ -79,10 +79,29 @@ def _run_verus(rs, extra=()):
 def _enclosing_fn(lines, ln):
     """Scan upwards in generated text for the fn whose body contains line ln."""
     for k in range(ln, 0, -1):
-        m = re.match(r"\s*(pub\s+)?(open\s+|closed\s+)?(broadcast\s+)?(proof\s+|spec\s+|exec\s+)?fn\s+([A-Za-z_0-9]+)", lines[k - 1])
+        m = re.match(r"\s*(pub\s+)?((open|closed|uninterp|broadcast|axiom)\s+)*(proof\s+|spec\s+|exec\s+)?(axiom\s+)?fn\s+([A-Za-z_0-9]+)", lines[k - 1])
         if m:
-            return m.group(5)
+            return m.group(6)
     return None
+
+
+def resolve_span(span, unit_file):
+    """Map a rustc span to its position in the generated unit file.  For code produced by a macro (panic!, assert!,
+    unreachable!, vec!) the top-level coordinates are those of the macro DEFINITION (e.g. library/core/src/panic.rs:62);
+    the call site is down the `expansion` chain.  Returns the innermost span lying in the unit file, or None."""
+    best = None
+    cur = span
+    while cur is not None:
+        if os.path.basename(cur.get("file_name", "")) == unit_file:
+            best = cur
+        exp = cur.get("expansion")
+        cur = exp.get("span") if exp else None
+    if best is None:
+        return None
+    out = dict(best)
+    out["is_primary"] = span.get("is_primary")
+    out["label"] = span.get("label")
+    return out
 
 
 def classify(diag):
@@ -185,7 +204,11 @@ def verify_unit(unit, canary=True, extra=()):
         if c == "resource":
             resource.append(d.get("rendered") or d.get("message"))
             continue
-        spans = d.get("spans", [])
+        unit_file = os.path.basename(m["rs"])
+        spans = [x for x in (resolve_span(sp, unit_file) for sp in d.get("spans", [])) if x is not None]
+        if not spans:
+            frontend.append("diagnostic without a position in the unit file: " + (d.get("rendered") or d.get("message")))
+            continue
         # the clause that failed (postcondition / invariant) is what names the obligation; for preconditions and
         # body checks it is the primary span (the call site / operation), never the callee's requires clause
         clause = [s for s in spans if (s.get("label") or "").startswith("failed this ")]
